@@ -88,7 +88,9 @@ def gen_big_history(rng):
 def gen_close_fault_history(rng):
     """unsynced work, then iwkv_close whose first (or second) write to the log fails with EFBIG: the close must report
     the failure, or everything must be there at the next open"""
-    ops = ["n1", "p1:%s:100:3" % W.khex("k01"), "s"]
+    # grown once and checkpointed first: a growth-forced checkpoint (known finding) after the last sync would leave a torn
+    # main file behind the failed close, exactly as behind a kill
+    ops = ["n1", "p1:%s:%d:1" % (W.khex("zz"), 30000 + rng.below(3000)), "d1:%s" % W.khex("zz"), "c", "p1:%s:100:3" % W.khex("k01"), "s"]
     for _ in range(rng.range(2, 8)):
         ops.append("p1:%s:%d:%d" % (W.khex(rng.choice(KEYS)), rng.choice([5, 20, 100, 700]), rng.below(250)))
     ops.append("Q%d" % rng.choice([1, 1, 1, 2]))
@@ -445,7 +447,10 @@ def close_fault_case(run, impl, wd, name, crc, ops):
         return
     if o.get("rc") == "0":
         why = "iwkv_close returned 0 although a write to the log failed inside it (EFBIG), and %s" % why
-    run.violation({"ops": ops, "crc": crc, "killat": -1, "effects": None, "rec_kill": None, "class": "close-fault", "rec_cfg": None,
+    # the file grew after the pre-grow checkpoint: a growth-forced checkpoint without savepoint lies behind the lost buffer
+    sizes = [tr["ops"][i].get("mainsz") for i in sorted(tr["ops"]) if i >= 3 and tr["ops"][i].get("mainsz") is not None]
+    cl = "growth-checkpoint" if len(set(sizes)) > 1 else "close-fault"
+    run.violation({"ops": ops, "crc": crc, "killat": -1, "effects": None, "rec_kill": None, "class": cl, "rec_cfg": None,
                    "second_session": SESSION2, "admissible_prefixes": list(rng_), "impl": recline[:3000], "recovered": got}, why)
 
 
